@@ -56,8 +56,16 @@ class RealMonitor(object):
         self.mon.logger = logging.getLogger("kmip.server.monitor.verif")
         self.mon.logger.disabled = True
 
-    def write(self, f, content, valid, mtime):
+    def write(self, f, content, valid, mtime, how="text"):
         path = os.path.join(self.dir, f)
+        if os.path.islink(path):
+            os.unlink(path)
+        if how == "symlink":
+            # an invalid "document" of another kind: a *.json entry that cannot be opened (a dangling symbolic link)
+            if os.path.exists(path):
+                os.unlink(path)
+            os.symlink(os.path.join(self.dir, "no-such-target"), path)
+            return
         with open(path, "w") as fh:
             if valid:
                 json.dump({n: DEFS[d] for n, d in sorted(content.items()) if d != "none"}, fh, sort_keys=True)
@@ -190,6 +198,7 @@ def random_traces(run, n, length, seed):
         steps = []
         present = {}
         gone = {}          # removed files as they were: (content, valid, mtime)
+        unopen = set()     # files currently represented by an entry that cannot be opened
         mt = {}
         clock = 100
         try:
@@ -213,15 +222,25 @@ def random_traces(run, n, length, seed):
                     if not valid and f in present:
                         content = present[f]
                     clock += 1
-                    rm.write(f, content, valid, clock)
+                    when = clock
+                    if f in present and f not in unopen and r.random() < 0.2 and mt[f][1] > 1:
+                        when = max(1, mt[f][1] - r.randrange(1, 4))      # a backup restored over the file: an OLDER time
+                    how = "text"
+                    if not valid and when == clock and r.random() < 0.3:
+                        how = "symlink"                                    # an entry that cannot be opened at all
+                        unopen.add(f)
+                    elif when == clock:
+                        unopen.discard(f)
+                    rm.write(f, content, valid, when, how=how)
                     present[f] = content
-                    mt[f] = (valid, clock)
+                    mt[f] = (valid, when)
                     gone.pop(f, None)
                     steps.append({"kind": "write", "f": f, "content": {nm: content.get(nm, "none") for nm in content},
-                                  "valid": valid, "mtime": clock})
+                                  "valid": valid, "mtime": when})
                 elif x < 0.6 and present and (not pending_removal or multi):
                     f = r.choice(sorted(present))
                     rm.remove(f)
+                    unopen.discard(f)
                     gone[f] = (present[f], mt[f][0], mt[f][1])
                     del present[f]
                     pending_removal = True
@@ -262,7 +281,7 @@ def random_traces(run, n, length, seed):
 
 SECTION_JSON = {
     "ok": {"SYMMETRIC_KEY": {"GET": "ALLOW_ALL", "DESTROY": "ALLOW_OWNER"}},
-    "empty": {}, "list": ["x"], "string": "x", "number": 5, "null": None,
+    "empty": {}, "list": ["x"], "string": "x", "number": 5, "null": None, "zero": 0, "false": False, "emptystr": "", "emptylist": [],
     "badtype": {"NOT_A_TYPE": {"GET": "ALLOW_ALL"}},
     "ops_list": {"SYMMETRIC_KEY": ["GET"]}, "ops_string": {"SYMMETRIC_KEY": "GET"},
     "badop": {"SYMMETRIC_KEY": {"NOPE": "ALLOW_ALL"}}, "badperm": {"SYMMETRIC_KEY": {"GET": "MAYBE"}},
@@ -288,8 +307,8 @@ def render_policy(p):
             o["groups"] = ["g1"]
         elif g == "string":
             o["groups"] = "g1"
-        elif g == "null":
-            o["groups"] = None
+        elif g in ("null", "zero", "false", "emptystr", "emptylist"):
+            o["groups"] = SECTION_JSON[g]
         elif g == "group_section_bad":
             o["groups"] = {"g1": SECTION_JSON["badperm"]}
         return o
